@@ -1029,6 +1029,28 @@ func (e *Env) call(ex *ast.CallExpr) (SymVal, error) {
 			return x, nil
 		}
 		return SymVal{K: KReal, S: app("fp.to_real", x.S), T: nil}, nil
+	case "rtz":
+		x, err := arg(0)
+		if err != nil {
+			return SymVal{}, err
+		}
+		return SymVal{K: KFloat, S: app("fp.roundToIntegral", "RTZ", x.S)}, nil
+	case "isIntegral":
+		x, err := arg(0)
+		if err != nil {
+			return SymVal{}, err
+		}
+		return mkBool(app("fp.eq", app("fp.roundToIntegral", "RTZ", x.S), x.S)), nil
+	case "floor":
+		// floor of a real, as an Int
+		x, err := arg(0)
+		if err != nil {
+			return SymVal{}, err
+		}
+		if x.K != KReal {
+			return SymVal{}, fmt.Errorf("floor needs a real")
+		}
+		return mkMath(app("to_int", x.S)), nil
 	case "fabs":
 		x, err := arg(0)
 		if err != nil {
@@ -1189,6 +1211,8 @@ func (e *Env) call(ex *ast.CallExpr) (SymVal, error) {
 		if err != nil {
 			return SymVal{}, err
 		}
+		// to_int is floor; toward zero = floor for r >= 0, -floor(-r) otherwise; the argument is integral
+		// already (RTZ), so floor is exact.
 		r := app("fp.to_real", app("fp.roundToIntegral", "RTZ", x.S))
 		return mkMath(app("to_int", r)), nil
 	case "freshobj":
